@@ -274,7 +274,7 @@ class C19(fw.Property):
     gen_jobs = ["fileserver"]
     model_imports = ["Verif.Lib.Py", "Verif.Model.C19Path", "Verif.Gen.fileserver", "Verif.Model.C19"]
     quick_budget = 300
-    thorough_budget = 6000
+    thorough_budget = 3000
     design_ref = "DESIGN.md section 22"
     technique = ("Coq proof over FileServer.request_to_localpath translated from source (tie T) composed with an executable model of posixpath.join / "
                  "PurePosixPath and of every render method as an effect-producing state machine; Hoare-style confinement/frame proofs for all requests, "
@@ -418,6 +418,10 @@ class C19(fw.Property):
                 if x < 0.3:
                     szx = rng.choice([0, 1, 2, 3, 4, 5, 6, 6, 7])
                     num = rng.choice([0, 0, 1, 1, 2, 3, 4, 7, 8, 63, 64, 65, 127, 128, 129, 1000, 2 ** 20 - 1])
+                    size = next((e["size"] for e in tree if not e.get("d") and e["p"] == [c for c in path if c != ""]), None)
+                    if size is not None and rng.random() < 0.6:     # aim at the last block / the block boundary around the end of the file
+                        bs = 2 ** (min(szx, 6) + 4)
+                        num = max(0, size // bs + rng.choice([-1, -1, 0, 0, 1]))
                     it["block2"] = [num, rng.random() < 0.2, szx]
                 elif x < 0.55 and m == 1 and plain_last and not wild:
                     it["all"] = rng.choice([6, 6, 5, 4, 3, 2, 7] if kind != "file" or rng.random() < 0.5 else [0, 1, 2, 3, 4, 5, 6, 7])
